@@ -108,6 +108,24 @@ class Check(object):
         except Exception as e:
             if type(e).__name__ == "RaiseSignal":
                 node = getattr(e, "node", None)
+                import ast as _ast
+                cls = getattr(getattr(e.exc, "cls", None), "name", "")
+                definite = cls in ("builtins.TypeError", "builtins.AttributeError", "builtins.NameError") \
+                    and not isinstance(node, _ast.Raise)
+                if definite:
+                    # not a 'raise' statement of the package but Python itself refusing an operation (wrong arity, a missing
+                    # attribute on a concrete object, float() of an object): on the well-formed abstract input of this check the
+                    # entry point cannot deliver what the property describes
+                    rule = "%s.X" % self.pid
+                    if rule not in self.rule_desc:
+                        self.rule(rule, "the analysed entry point does not fail with a Python TypeError/AttributeError/NameError "
+                                        "on well-formed input", 0)
+                    what = getattr(e.exc, "args", None)
+                    self.ob(rule, "%s: runs without a Python %s" % (label, cls.split(".")[-1]), False,
+                            site=getattr(e, "where", None) or ("line %s" % getattr(node, "lineno", "?")),
+                            found="%s: %s" % (cls.split(".")[-1], what[0].v if what and hasattr(what[0], "v") else what),
+                            expect="no exception", key="%s|%s|%s" % (rule, label, cls.split(".")[-1]))
+                    return None
                 self.error("%s: the analysed code raises %r (line %s) on the abstract input and nothing handles it"
                            % (label, e.exc, getattr(node, "lineno", "?")))
             else:
